@@ -609,7 +609,12 @@ func c03World(r *rand.Rand, exact bool) *World {
 	w.Log = gen.RandomLog(r, gen.LogOpts{Days: 1 + r.Intn(4), Foods: names, Exact: exact, EmptyDays: true})
 	w.Res = model.Resolve(w.Book)
 	w.Abs = model.AbsPaths(w.Book)
-	w.BookText = gen.RenderBook(w.Book, nil)
-	w.LogText = gen.RenderLog(w.Log, w.Layout, nil)
+	var st *gen.Style
+	if r.Intn(3) == 0 {
+		// every documented layout variant: blank and comment lines inside records, dashes, quotes, tabs, CRLF
+		st = gen.Hostile(r)
+	}
+	w.BookText = gen.RenderBook(w.Book, st)
+	w.LogText = gen.RenderLog(w.Log, w.Layout, st)
 	return w
 }
